@@ -69,6 +69,15 @@ func c16PathCheck(w *h.World, logStart int, what, x, src string) []h.Violation {
 			if owner == x || (src != "" && owner == src) {
 				continue
 			}
+			if w.Conf.Store != "dir" && !op.Mut {
+				// the memory store over a directory accepts names with reserved elements: root/a/blobs is then both inside
+				// a's layout and the own directory of repository a/blobs; looking there is inside "the addressed
+				// repository's own directory" (what is served from it is judged by the content comparison)
+				own := func(t string) bool { return t != "" && (rel == t || strings.HasPrefix(rel, t+"/")) }
+				if own(x) || own(src) {
+					continue
+				}
+			}
 			if owner == "" || strings.HasPrefix(x, owner+"/") || (src != "" && strings.HasPrefix(src, owner+"/")) {
 				// an ancestor directory of the addressed repository: only looked at or created on the way down
 				isAnc := func(t string) bool { return t != "" && (t == rel || strings.HasPrefix(t, rel+"/")) }
